@@ -106,23 +106,39 @@ def run_schedule(cfg: dict[str, Any], chooser: Chooser) -> dict[str, Any]:
                 if not fut.done():
                     fut.set_result(None)
 
+        # the cached function is reachable through this holder only (a request-scoped / locally built cached function)
+        holder: dict[str, Any] = {"fn": fetch}
+        del fetch
         tasks: list[asyncio.Task[Any]] = []
+
+        async def dropper() -> None:
+            # the owner lets go of the cached function (and a cyclic collection follows) - whatever is in flight stays untouched
+            await sched.gate("drop")
+            log["events"].append(("drop", len(log["actions"])))
+            holder.clear()
+            import gc
+
+            gc.collect()
 
         async def caller(i: int) -> None:
             c = {"arrived": None, "result": None, "unfinished_at_arrival": None}
             log["callers"][i] = c
             await sched.gate(f"arrive{i}")
+            if "fn" not in holder:
+                return  # the cached function is gone: this caller never calls
             c["arrived"] = len(log["actions"])
             c["inv_count_at_arrival"] = len(log["inv"])
             try:
                 if i in scoped:
                     # the call is made from inside the caller's own scope (its task group is torn down when the caller is cancelled)
                     async with ctx.scope(f"caller{i}"):
-                        c["result"] = ("value", await fetch(keys[i]))
+                        c["result"] = ("value", await holder["fn"](keys[i]))
                 else:
-                    c["result"] = ("value", await fetch(keys[i]))
+                    c["result"] = ("value", await holder["fn"](keys[i]))
             except asyncio.CancelledError:
                 c["result"] = ("cancelled", None)
+                if cfg.get("drop"):
+                    return  # ends normally: a cancelled Task would keep the traceback (and through it the cached function) alive
                 raise
             except BaseException as exc:  # noqa: BLE001
                 c["result"] = ("raise", exc)
@@ -152,6 +168,8 @@ def run_schedule(cfg: dict[str, Any], chooser: Chooser) -> dict[str, Any]:
             others.append(loop.create_task(expirer()))
         for i in range(cfg.get("ticks", 0) if expire else 0):
             others.append(loop.create_task(ticker(i)))
+        if cfg.get("drop"):
+            others.append(loop.create_task(dropper()))
         await asyncio.gather(*tasks, *others, return_exceptions=True)
         while True:
             pend = [f for f in inv_done if not f.done()]
@@ -343,6 +361,10 @@ def configs(tier: str):  # noqa: ANN201
         yield {"keys": keys, "cancels": [], "expire": False, "limit": 1, "outcome": "cancel-first"}
         yield {"keys": keys, "cancels": [], "expire": True, "jump": True, "limit": 2, "outcome": "cancel-first"}
     yield {"keys": ["A", "A", "A"], "cancels": [], "expire": True, "jump": True, "limit": 1, "outcome": "mixed-cancel"}
+    # every caller is cancelled and the owner drops the cached function while the invocation is still running
+    yield {"keys": ["A", "A"], "cancels": [0, 1], "expire": False, "limit": 1, "outcome": "value", "drop": True}
+    yield {"keys": ["A", "B"], "cancels": [0, 1], "expire": False, "limit": 2, "outcome": "value", "drop": True}
+    yield {"keys": ["A"], "cancels": [0], "expire": True, "jump": True, "limit": 1, "outcome": "value", "drop": True}
 
 
 def random_config(rng: random.Random) -> dict[str, Any]:
@@ -350,6 +372,8 @@ def random_config(rng: random.Random) -> dict[str, Any]:
     keys = ["A"] + [rng.choice("AAB") for _ in range(n - 1)]
     cancels = sorted(rng.sample(range(n), rng.randint(0, 2)))
     cfg = {"keys": keys, "cancels": cancels, "expire": rng.random() < 0.6, "limit": rng.choice([1, 2]), "outcome": rng.choice(["value", "raise", "mixed", "mixed", "cancel-first", "mixed-cancel"])}
+    if rng.random() < 0.15:
+        cfg["drop"] = True
     if rng.random() < 0.3:
         cfg["scoped"] = sorted(rng.sample(range(n), rng.randint(1, n)))
     if cfg["expire"]:
